@@ -12,6 +12,10 @@ import (
 // It is taken from https://github.com/neo-project/neo/blob/master/neo/IO/Helper.cs#L130
 const MaxArraySize = 0x1000000
 
+// maxArrayPrealloc is the maximum number of elements ReadArray allocates
+// space for before they are read.
+const maxArrayPrealloc = 1024
+
 // BinReader is a convenient wrapper around an io.Reader and err object.
 // Used to simplify error handling when reading into a struct with many fields.
 type BinReader struct {
@@ -125,15 +129,20 @@ func (r *BinReader) ReadArray(t any, maxSize ...int) {
 		return
 	}
 
+	// The declared length is not trusted: memory is allocated as elements
+	// are actually decoded (space for at most maxArrayPrealloc is reserved up front),
+	// and decoding stops at the first error, so that a short input can not
+	// make us allocate (and iterate over) up to MaxArraySize elements.
 	l := int(lu)
-	arr := reflect.MakeSlice(sliceType, l, l)
+	arr := reflect.MakeSlice(sliceType, 0, min(l, maxArrayPrealloc))
 
 	for i := range l {
 		var elem reflect.Value
 		if isPtr {
 			elem = reflect.New(elemType.Elem())
-			arr.Index(i).Set(elem)
+			arr = reflect.Append(arr, elem)
 		} else {
+			arr = reflect.Append(arr, reflect.Zero(elemType))
 			elem = arr.Index(i).Addr()
 		}
 
@@ -143,6 +152,9 @@ func (r *BinReader) ReadArray(t any, maxSize ...int) {
 		}
 
 		el.DecodeBinary(r)
+		if r.Err != nil {
+			return
+		}
 	}
 
 	value.Elem().Set(arr)
